@@ -37,7 +37,7 @@ ASSUMPTIONS = [
 
 VALUES = [1, 1.0, True, 0, False, 0.0, -0.0, -1, -1.0, -2, -2.0, "1", None, [1, 2], [1.0, 2], [], {"x": 1}, {}, 2, "ab",
           [{"x": 1, "y": 2}], [{"y": 2, "x": 1}], [1, [2, 3]], ["a", {"x": 1}, []]]  # the last two: equal lists of mappings written in different key order
-KEYS = ["a", "b", "n", "l", "s", "pressure", "sp_x", "ps"]  # incl. names starting with the letters of the internal "sp." prefix
+KEYS = ["a", "b", "n", "l", "s", "pressure", "sp_x", "ps", "disp", "sp"]  # incl. names starting with the letters of the internal "sp." prefix
 
 
 @st.composite
@@ -51,7 +51,7 @@ def corpora(draw):
             if draw(st.integers(0, 3)) == 0:
                 continue
             v = draw(st.sampled_from(pools[k]))
-            if k in ("n", "s") and draw(st.booleans()):
+            if k in ("n", "s", "disp", "sp") and draw(st.booleans()):
                 v = {"x": v, "y": draw(st.sampled_from(pools["a"]))}
                 if draw(st.booleans()):
                     # three and four levels deep, several leaves below one second-level key
